@@ -74,3 +74,17 @@ package packet
 //@ func NewRateLimitReadWriter
 //@   props C15
 //@   ensures isptr(ret, rateLimitReadWriter) && asptr(ret, rateLimitReadWriter).ReadWriter == delegate && asptr(ret, rateLimitReadWriter).limiter == limiter
+
+// outer functions of sender and receiver: fresh channels, one worker goroutine each, bound to exactly these channels
+//@ func NewSender
+//@   props C07
+//@   ensures isptr(ret, sender) && asptr(ret, sender).w == w
+//@ func NewReceiver
+//@   props C20 C06
+//@   ensures isptr(ret, receiver) && asptr(ret, receiver).sr == sr && asptr(ret, receiver).p == p
+//@ func (*sender).SendPackets
+//@   props C07 C12 C16
+//@   entry row start: [go (*sender).SendPackets$1{done: bind_d, errc: bind_e, in: bind_i, ctx: bind_c, s: bind_s2}] when ret0 == d && ret1 == e && i == in && c == ctx && s2 == s && d != e -> exit
+//@ func (*receiver).ReceivePackets
+//@   props C20 C12 C16
+//@   entry row start: [go (*receiver).ReceivePackets$1{errc: bind_e, ctx: bind_c, r: bind_r2}] when ret == e && c == ctx && r2 == r -> exit
